@@ -1227,3 +1227,14 @@ m('L6-walk-agenda-kept-between-calls', 'C05', 'L6', 'PyTreeSpec::WalkImpl/static
   """    const scoped_critical_section cs{leaves};
     static thread_local auto agenda = reserved_vector<py::object>(4);
     agenda.clear();""")
+m('F14-engine-flatten-with-path-defaults-to-none-is-leaf', 'C03', 'F14', '_C.module.flatten_with_path/none_is_leaf', 'src/optree.cpp',
+  """             "Flatten a pytree and additionally record the paths.",
+             py::arg("tree"),
+             py::pos_only(),
+             py::arg("leaf_predicate") = std::nullopt,
+             py::arg("none_is_leaf") = false,""",
+  """             "Flatten a pytree and additionally record the paths.",
+             py::arg("tree"),
+             py::pos_only(),
+             py::arg("leaf_predicate") = std::nullopt,
+             py::arg("none_is_leaf") = true,""")
